@@ -1,0 +1,14 @@
+/*
+ * Verification hook callback pointers (see slu_mt_verif.h).
+ * This translation unit defines nothing unless compiled with -DSLU_MT_VERIF.
+ */
+#ifdef SLU_MT_VERIF
+#include "slu_mt_verif.h"
+
+sluv_event_fn   sluv_event_cb   = 0;
+sluv_perturb_fn sluv_perturb_cb = 0;
+sluv_slots_fn   sluv_slots_cb   = 0;
+
+#else
+typedef int slu_mt_verif_unused_t; /* keep the translation unit non-empty */
+#endif
